@@ -12,7 +12,7 @@ CHECKS = {
          "Seeded search over create / copy / remove / re-create sequences across one or two workspaces with caller-supplied identifiers that are fresh, in use (same kind, other kind, property group, root) or belong to removed entities.", "5 C06"),
  "C09": ("exploration", "world machine + concat machine (row slices of other holes); RAW per-node sub-digest diff around every single event must lie within what the operation may touch; boundaries without mutation change nothing",
          "Every event of every history is judged, including non-mutating ones (observe, lookups, listings, GC, close/re-open).", "5 C09"),
- "C12": ("exploration", "world machine (copy-heavy) + concat machine (hole and drillhole-group copies, same and other workspace); identifier-free subtree signatures of copy and source, source LIVE unchanged at copy time and after every later edit of either side",
+ "C12": ("exploration", "world machine (copy-heavy) + concat machine (hole and drillhole-group copies, same and other workspace) + survey machine (copies of linked surveys); identifier-free subtree signatures of copy and source, source LIVE unchanged at copy time and after every later edit of either side",
          "Seeded search over entity class x target (same parent, other group, other workspace) x copy_children x clear_cache x later edits of copy or source.", "5 C12"),
 }
 NA = {
@@ -22,7 +22,7 @@ NA = {
  "C16": "pure function of the list of inputs to merge (quantifier: inputs only)",
  "C17": "formula conformance over inputs and configurations; the one history-dependent aspect (stale centroid cache after a setter) is covered by C03's LIVE-vs-REOPEN differential",
 }
-PENDING = [ "C15", "C18", "C20"]
+PENDING = [ "C15", "C18"]
 
 def main():
     import importlib.util, os
